@@ -74,8 +74,9 @@ SelMapBase(r) == /\ (GForm(r.i1).kind = "full" => r.m >= 2)
                  /\ (PForm(r.j).kind = "gmrf" => r.geo \in {"default", "cont"})
 SelVec(r) == /\ SelMapBase(r)
              /\ r.mdl = "func"
-VecThin(r, fv) == IF Thorough THEN \/ (GForm(r.i1).form = "cov" /\ PForm(r.j).form \in {"cov", "gmrf"})
-                                   \/ (r.i1 + r.j + FvNo(fv)) % 4 = 0
+VecThin(r, fv) == IF Thorough THEN \/ (GForm(r.i1).form = "cov" /\ PForm(r.j).form \in {"cov", "gmrf"} /\ r.av = 1
+                                         /\ (r.geo \in {"cont", "disc", "scale"} => (r.i1 + r.j + FvNo(fv) + r.m) % 4 = 0))
+                                   \/ ((r.i1 + r.j + FvNo(fv)) % 8 = 0 /\ (r.av = 2 => r.geo = "default"))
                   ELSE /\ r.av = 1
                        /\ (r.geo \in {"cont", "disc", "scale"} => (r.i1 + r.j + FvNo(fv) + r.m) % 8 = 0)
                        /\ \/ (GForm(r.i1).form = "cov" /\ PForm(r.j).form = "cov" /\ (r.i1 + r.j + FvNo(fv) + r.m) % 2 = 0)   \* closed-form route
